@@ -334,6 +334,14 @@ func (e *explorer) runOne(cfgIdx int, cfg Cfg, prefix []int, expect []point, tra
 func (e *explorer) runOneSeen(cfgIdx int, cfg Cfg, prefix []int, expect []point, trace bool, seenReplay []bool) *X {
 	x := &X{e: e, cfgIdx: cfgIdx, prefix: prefix, expect: expect, trace: trace, T: e.t, seenReplay: seenReplay}
 	e.writeInflight(cfgIdx, prefix)
+	// wall-clock watchdog (real timer, created outside the bubble): an execution that does not finish
+	// (e.g. a goroutine blocked on a third-party sync.Mutex, which synctest cannot see through) kills
+	// the worker with a full goroutine dump; the parent reports the in-flight schedule.
+	wd := time.AfterFunc(time.Duration(envInt("VMC_EXEC_TIMEOUT_S", 100))*time.Second, func() {
+		debug.SetTraceback("all")
+		panic(fmt.Sprintf("vmc: execution exceeded the wall-clock watchdog (config %q prefix %v): hang outside synctest's view", cfg.Name, prefix))
+	})
+	defer wd.Stop()
 	body := func() {
 		defer func() {
 			if r := recover(); r != nil {
